@@ -27,15 +27,20 @@ RULE = ('A case is an interpreted op list over {finalize; unlock_config block wi
         'parse_config (flat, block, two statements, macro definition, %macro reference top-level '
         'or nested, unevaluated @M/gin.macro, @unknown() placeholder via skip_unknown=True '
         'top-level or nested, %gin.REQUIRED); register a new configurable (configurable / '
-        'register / external_configurable); clear_config; register a finalize hook in {returns '
+        'register / external_configurable; a new name, or -- inside interactive mode only -- an '
+        'existing name with a different function); an interactive_mode() block with a nested op '
+        'list as body; finalize optionally called inside an active config_scope; clear_config; '
+        'register a finalize hook in {returns '
         'None, returns {}, returns a binding, returns the parameter of an earlier hook under a '
         'different spelling, returns an invalid binding, raises}}. Operands are small ints taken '
         'modulo the model state. Source 1: bounded exhaustive sweep of all sequences of length '
-        '<=3 (quick) / <=4 (thorough) over a fixed 22-op alphabet, plus a 1023-case product sweep '
+        '<=3 (quick) / <=4 (thorough) over a fixed 23-op alphabet, plus a ~1500-case product sweep '
         'of the variants the alphabet has one representative of (5 exit paths x 8 bodies x '
         'locked/unlocked x 5 follow-ups; 6 bad-value kinds x 2 macros x macro bound/unbound x '
-        'binding hook or not x 4 repairs; all pairs of 15 hook variants; 51 mutator forms on a '
-        'locked config). Source 2: Hypothesis histories: free op lists (<=14 top-level ops, '
+        'binding hook or not x 4 repairs x finalize inside a config scope or not; all pairs of 15 '
+        'hook variants; 51 mutator forms on a locked config; the same forms plus 9 '
+        're-registrations inside interactive mode, locked / in an unlock block / after clear). '
+        'Source 2: Hypothesis histories: free op lists (<=14 top-level ops, '
         'unlock bodies <=4 ops, nesting depth <=3) mixed with two scenario shapes (benign prefix, '
         'finalize, raising/nested unlock, suffix; prefix, 1-2 rejection causes, finalize, '
         'suffix). After every op '
@@ -68,6 +73,14 @@ ASSUMPTIONS = [
     'out-of-domain); whether a second finalize runs the hooks before raising; nested '
     '%gin.REQUIRED values (only top-level values are generated); the class of the exception a '
     'rejected finalize raises; names used as unknown references are never registered later',
+    'interactive mode (gin.config.interactive_mode(), always the block form, never nested) only '
+    'waives duplicate-name checks: it is not a way out of the lock, so every locked mutator must '
+    'still raise RuntimeError and change nothing (a re-registered name must still resolve to the '
+    'identical object) and nothing else about the lock may change; re-registration of an '
+    'existing name is attempted only inside interactive mode, and while unlocked only a lock '
+    'error from it is a violation (whether it succeeds is not C12)',
+    'what finalize accepts or rejects does not depend on an active config scope '
+    '(`with gin.config_scope("zs"): gin.finalize()`); the scope zs is used by no binding',
     'the config argument handed to a hook is a mapping (scope, selector) -> {parameter: value} '
     '(documented hook interface); the selector is matched to the registered name by dotted '
     'suffix, not compared literally',
@@ -93,11 +106,14 @@ FLOORS = {
     'hyp:finalize:sole-cause:config-unknown-reference': (0.01, 'gen:hyp'),
     'hyp:finalize:sole-cause:config-required': (0.01, 'gen:hyp'),
     'hyp:clear:while-locked': (0.03, 'gen:hyp'),
+    'hyp:locked:register-rejected': (0.05, 'gen:hyp'),
+    'hyp:locked:register-interactive-rejected': (0.01, 'gen:hyp'),
+    'hyp:finalize:inside-config-scope': (0.05, 'gen:hyp'),
 }
 TECHNIQUE = ('model-based property testing: operation histories (bounded exhaustive sweep + '
              'Hypothesis) against a lock-bit/config/hook reference model, one forked process per '
              'history')
-LEVEL_TEXT = ('Every sequence of length <=3 (quick) / <=4 (thorough) over a 22-operation alphabet '
+LEVEL_TEXT = ('Every sequence of length <=3 (quick) / <=4 (thorough) over a 23-operation alphabet '
               'covering each operation class of the property is executed exhaustively, and '
               'Hypothesis adds longer histories with nested unlock bodies; after every operation '
               'the lock flag, every binding of the parameter universe and (for operations that '
@@ -129,6 +145,11 @@ def n1(a=0, b=0):
   return ('n1', a, b)
 def n2(a=0, b=0):
   return ('n2', a, b)
+def make_alt(name, k):
+  def alt(a=0, b=0):
+    return (name + '#' + str(k), a, b)
+  alt.__name__ = alt.__qualname__ = name
+  return alt
 '''
 
 
@@ -182,6 +203,8 @@ class _Run:
     self.nontrivial = False
     self.locked_entry_depth = 0     # number of enclosing unlock blocks entered while locked
     self.special_exit_seen = False
+    self.interactive = False        # inside a `with gin.config.interactive_mode():` block
+    self.alt_count = 0
     self.observe('initial')
 
   # ------------------------------------------------------------------ helpers
@@ -288,9 +311,11 @@ class _Run:
     for op in ops:
       kind = op[0]
       if kind == 'finalize':
-        self.op_finalize()
+        self.op_finalize(op)
       elif kind == 'unlock':
         self.op_unlock(op, depth)
+      elif kind == 'interactive':
+        self.op_interactive(op, depth)
       elif kind == 'bind':
         self.op_bind(op)
       elif kind == 'parse':
@@ -364,14 +389,42 @@ class _Run:
     self.labels.add('parse:' + op[1])
     self.observe('parse')
 
-  def op_register(self, op):
-    api = op[1] % 3
-    unused = [n for n in NEW if n not in self.registry]
-    if not unused:
+  def op_interactive(self, op, depth):
+    """Body inside `with gin.config.interactive_mode():`.  Interactive mode waives the duplicate
+    name checks only; it is not a way out of the lock, so the model is untouched."""
+    if self.interactive:            # the block form is not re-entrant; never nest it
+      self.exec_ops(op[1], depth)
       return
-    full = unused[0]
-    module, name = full.split('.')
-    fn = getattr(self.mod, name)
+    self.labels.add('interactive:block')
+    with gin.config.interactive_mode():
+      self.interactive = True
+      try:
+        self.observe('interactive:entered')
+        self.exec_ops(op[1], depth)
+      finally:
+        self.interactive = False
+    self.observe('interactive:left')
+
+  def op_register(self, op):
+    """['register', api]            a new name
+       ['register', api, 1, ci]     an existing name with a different function (only attempted in
+                                    interactive mode, where it is a well-formed request)"""
+    api = op[1] % 3
+    rereg = len(op) > 2 and op[2] % 2 == 1
+    if rereg:
+      if not self.interactive:
+        return
+      full = self.registry[op[3] % len(self.registry)]
+      module, name = full.split('.')
+      self.alt_count += 1
+      fn = self.mod.make_alt(name, self.alt_count)
+    else:
+      unused = [n for n in NEW if n not in self.registry]
+      if not unused:
+        return
+      full = unused[0]
+      module, name = full.split('.')
+      fn = getattr(self.mod, name)
     if api == 0:
       do = lambda: gin.configurable(name, module=module)(fn)
     elif api == 1:
@@ -379,19 +432,40 @@ class _Run:
     else:
       do = lambda: gin.external_configurable(fn, name=name, module=module)
     self.mutation_attempt()
+    what = ('reregister' if rereg else 'register') + ('-interactive' if self.interactive else '')
     if self.locked:
-      self.expect_locked(do, 'register')
+      old = gin.get_configurable(full) if rereg else None
+      self.expect_locked(do, what)
+      self.labels.add('locked:register-rejected')
+      if rereg:
+        require(gin.get_configurable(full) is old, f'locked:{what}:configurable-was-replaced',
+                lambda: f'the attempt raised but {full} no longer resolves to the old object')
+        return
       try:
         gin.get_configurable(full)
       except ValueError:
         pass
       else:
-        raise Violation('locked:register:configurable-was-added',
+        raise Violation(f'locked:{what}:configurable-was-added',
                         f'registration of {full} raised but get_configurable finds it')
+      return
+    if rereg:
+      # Unlocked + interactive: Gin documents that this replaces the configurable.  Not C12's
+      # business -- only a *lock* error here would be.
+      try:
+        do()
+        self.labels.add('reregister:ok')
+      except RuntimeError as e:
+        raise Violation('unlocked:reregister:lock-error', f'{type(e).__name__}: {str(e)[:200]}')
+      except Exception:  # pylint: disable=broad-except
+        self.labels.add('reregister:refused-for-other-reasons')
+      self.observe('reregister')
       return
     do()
     self.registry.append(full)
     self.labels.add('register:ok')
+    if self.interactive:
+      self.labels.add('register:ok-interactive')
     self.observe('register')
 
   def op_clear(self, op):
@@ -471,9 +545,19 @@ class _Run:
           seen[h['target']] = h['key']
     return causes
 
-  def op_finalize(self):
+  def op_finalize(self, op=('finalize',)):
+    scoped = len(op) > 1 and op[1] % 2 == 1
+    if scoped:
+      # what finalize accepts or rejects must not depend on an active config scope
+      self.labels.add('finalize:inside-config-scope')
+
+      def do_finalize():
+        with gin.config_scope('zs'):
+          gin.finalize()
+    else:
+      do_finalize = gin.finalize
     if self.locked:
-      self.expect_locked(gin.finalize, 'finalize-twice')
+      self.expect_locked(do_finalize, 'finalize-twice')
       self.labels.add('finalize:twice')
       return
     pre = self.model_snapshot()
@@ -483,7 +567,7 @@ class _Run:
     before = gin.config_str()
     raised = None
     try:
-      gin.finalize()
+      do_finalize()
     except Exception as e:  # pylint: disable=broad-except
       raised = e
     for i, h in enumerate(self.hooks):
@@ -615,6 +699,7 @@ ALPHABET = [
     _BIND1,
     _PARSE1,
     ['register', 1],
+    ['interactive', [['register', 2]]],     # a new name, registered in interactive mode
     ['clear', 0],
     ['hook', 'none', 0, 0, 0, 0, 0],
     ['hook', 'bind', 1, 0, 0, 0, 7],        # returns {'s/f.a': 107}
@@ -664,7 +749,9 @@ def sweep_variants(tier):
         for hook in ([], [['hook', 'bind', 0, 1, 1, 2, 3]]):
           for fix in ([], [['bind', 0, 0, 0, 1, 5]], [['clear', 1]],
                       [['parse', 'macrodef', 0, 0, 0, 0, val]]):
-            add(macros + hook + [bad, ['finalize']] + fix + [['finalize'], _BIND1])
+            for scoped in (0, 1):     # finalize called inside `with gin.config_scope('zs'):`
+              add(macros + hook + [bad, ['finalize', scoped]] + fix +
+                  [['finalize', scoped], _BIND1])
   # (3) hook kinds: every pair of hooks (kind x spelling) then finalize, then a second finalize
   hooks = [['hook', k, 1, 0, 0, sp, v] for k in ('bind', 'dup') for sp in range(4)
            for v in (1,)]
@@ -682,6 +769,14 @@ def sweep_variants(tier):
   for m in muts:
     add([_BIND1, ['finalize'], m, ['unlock', [m], EXIT_NORMAL], m])
     add([['register', 0], ['finalize'], ['clear', 0], m, ['finalize'], m])
+  # (5) the same forms inside interactive mode (which waives duplicate-name checks, not the
+  #     lock), plus re-registration of an existing name with a different function
+  muts += [['register', api, 1, ci] for api in range(3) for ci in range(3)]
+  for m in muts:
+    im = ['interactive', [m]]
+    add([['register', 0], _BIND1, ['finalize'], im, ['unlock', [im], EXIT_NORMAL], im,
+         ['clear', 0], im, ['finalize', 1], im])
+    add([['interactive', [['finalize'], m, ['unlock', [m], EXIT_RAISE], m]], m])
   return cases, True
 
 
@@ -703,11 +798,13 @@ def _leaf_ops():
   bad_hook = st.tuples(st.just('hook'), st.sampled_from(['dup', 'dup', 'invalid', 'raise']),
                        _i, _i, _i, _i, _val)
   return [
-      (5, st.tuples(st.just('finalize'))),
+      (4, st.tuples(st.just('finalize'))),
+      (1, st.tuples(st.just('finalize'), st.just(1))),
       (3, bind),
       (2, good_parse),
       (2, bad_parse),
       (2, st.tuples(st.just('register'), st.integers(0, 2))),
+      (1, st.tuples(st.just('register'), st.integers(0, 2), st.just(1), _i)),
       (1, st.tuples(st.just('clear'), st.integers(0, 1))),
       (2, good_hook),
       (1, bad_hook),
@@ -727,7 +824,8 @@ def _ops(depth):
     body = st.lists(st.deferred(lambda: _ops(depth + 1)), min_size=0, max_size=4)
     exit_kind = st.sampled_from([EXIT_NORMAL, EXIT_NORMAL, EXIT_RAISE, EXIT_RAISE, EXIT_BASE,
                                  EXIT_GINCALL, EXIT_BREAK])
-    pairs = pairs + [(5 if depth == 0 else 2, st.tuples(st.just('unlock'), body, exit_kind))]
+    pairs = pairs + [(5 if depth == 0 else 2, st.tuples(st.just('unlock'), body, exit_kind)),
+                     (2, st.tuples(st.just('interactive'), body))]
   return _weighted(pairs).map(list)
 
 
